@@ -574,7 +574,7 @@ pub fn run_stall(focus: &'static str, seed: u64, index: u64) -> CaseOut {
     sched().quiet_mask.store(0, Ordering::SeqCst);
     stop.store(true, Ordering::SeqCst);
     // the sampler calls the API too: not joined blindly
-    if rt::poll_until(Duration::from_millis(500), || sampler.is_finished()) { counts.add("identity_samples_while_running", sampler.join().unwrap_or(0)); } else { std::mem::forget(sampler); }
+    if let Some(samples) = rt::join_helpers("the sampler of a stall run to finish", vec![sampler]) { counts.add("identity_samples_while_running", samples.into_iter().sum()); }
     for v in violations.lock().unwrap().iter() {
         fail(&mut findings, &["C15"], "C15/more-accounted-than-hits".into(), format!("while running: {}", v), case.clone());
     }
